@@ -61,6 +61,7 @@ STRUCTS = {
                                  "bucket_size": "bucket"}),
     # what `push_line` touches of the series: its Data (payload size) and the cached range
     "ByteSeries": ("SeriesView", {"data": "data", "range": "range"}),
+    "FileWithInlineMeta": ("FileView", {"file_handle": "file_handle", "payload_size": "payload_size"}),
 }
 # every field of these structs must be in the map (a new field changes what the type means)
 STRUCTS_EXACT = {"RoughPos", "Pos", "Estimate", "Entry"}
@@ -135,6 +136,19 @@ WRITE_FIELDS = {("Index", ("file",)): "(IoW.indexWrite {0})", ("Data", ("file_ha
 SINK_FIELDS = {("Data", "file_handle"): "(IoW.dataWrite {0})"}
 SKIP_PARAMS = {"corruption_callback"}
 
+# the open-time tail repair works on a generic file (`F: Read + Seek + SetLen`): the file is its bytes, `len()` their
+# number, `set_len(n)` keeps the first n; the parameter is passed in and the new content returned
+def is_file(t):
+    return t in ("F", "implSetLen")
+
+
+# the two repair stages written with iterator adaptors (`chunks_exact().tuple_windows().position(..)`, `by_ref().last()`)
+# are outside the subset: a call stands for the model's function of the same name (tied by the correspondence only)
+FILE_EXTERNALS = {
+    "removed_partial_meta_at_end": "(Rs.optStep (Impl.removePartialMeta {1} {0}) {0})",
+    "removed_start_of_meta_at_end": "(Rs.optStep (Impl.removeStartOfMeta {1} {0}) {0})",
+}
+
 # (file, impl type or None, fn, extra parameters appended to the Lean signature)
 TARGETS = [
     ("src/series/data.rs", None, "const:MAX_SMALL_TS", None),
@@ -173,6 +187,9 @@ TARGETS = [
     ("src/series.rs", "ByteSeries", "push_line", None),
     ("src/series/data/index.rs", "Index", "update", None),
     ("src/series/data.rs", "Data", "push_data", None),
+    ("src/series/data/inline_meta.rs", None, "repair_incomplete_last_write", None),
+    ("src/series/data/inline_meta.rs", None, "repaired_is_only_meta", None),
+    ("src/series/data/inline_meta.rs", "FileWithInlineMeta", "new", None),
 ]
 
 LEAN_KEYWORDS = {"end", "at", "from", "open", "section", "then", "do", "fun", "in", "have", "show", "where",
@@ -313,6 +330,8 @@ class Tr:
             self.sink = "(self, trace_)" if self.trace else "self"
             self.mutables.add("self")
         self.iters = []
+        self.file = None
+        self.labels = []
         for p in params:
             if p[0] == "self":
                 self.scope["self"] = impl
@@ -327,6 +346,11 @@ class Tr:
                 if is_sink(nt):
                     self.sink = pat[1]
                     self.mutables.add(pat[1])
+                if is_file(nt):
+                    self.sink = pat[1]
+                    self.file = pat[1]
+                    self.mutables.add(pat[1])
+                    self.scope[pat[1]] = "File"
                 if is_iter(nt):
                     self.iters.append(pat[1])
                     self.mutables.add(pat[1])
@@ -569,7 +593,7 @@ class Tr:
         ty = va.ty if va.ty not in (None, "int") else vb.ty
         if self.const_ctx:
             return Val(sa + sb, f"({ta} {op} {tb})", "pure", ty)
-        fn = {"+": "Rs.add", "-": "Rs.sub", "*": "Rs.mul", "/": "Rs.div"}.get(op)
+        fn = {"+": "Rs.add", "-": "Rs.sub", "*": "Rs.mul", "/": "Rs.div", "%": "Rs.rem"}.get(op)
         if not fn:
             raise Unsupported(f"operator {op}")
         if "u128" in (va.ty, vb.ty) and op in ("+", "*"):
@@ -579,7 +603,7 @@ class Tr:
 
     def tr_bin(self, e):
         op, a, b = e[1], e[2], e[3]
-        if op in ("+", "-", "*", "/"):
+        if op in ("+", "-", "*", "/", "%"):
             return self.arith(op, a, b)
         if op in ("==", "!=", "<", ">", "<=", ">="):
             sa, ta, va = self.atom_of(a)
@@ -867,6 +891,18 @@ class Tr:
         key = (None, name) if len(path) == 1 else (self.aliases.get(path[-2], path[-2]), name)
         if key[0] == "Self":
             key = (self.impl, name)
+        if len(path) == 1 and name in FILE_EXTERNALS:
+            if not self.file or len(args) != 2:
+                raise Unsupported("file external outside a function with a file")
+            x = args[0]
+            while x[0] in ("ref", "paren"):
+                x = x[-1]
+            if x != ("path", [self.file]):
+                raise Unsupported("file external on something that is not the file")
+            sp, tp, _ = self.atom_of(args[1])
+            f = mangle(self.file)
+            t = self.fresh()
+            return Val(sp + [("letm", t, FILE_EXTERNALS[name].format(f, tp)), ("assign", f, f"{t}.1")], f"(pure {t}.2)", "mon", "bool")
         if len(path) == 1 and name in EXTERNALS:
             tmpl, kind, rty = EXTERNALS[name]
             st, ts = [], []
@@ -907,8 +943,18 @@ class Tr:
             s, t = self.atom(recv)
             st += s; ts.append(t)
         sink_action = None
+        file_arg = False
         cparams = [p for p in self.w.fns[key][1] if p[0] != "self"] if key in self.w.fns else []
         for k, a in enumerate(args):
+            if k < len(cparams) and is_file(norm_type(cparams[k][1], key[0])):
+                x = a
+                while x[0] in ("ref", "paren"):
+                    x = x[-1]
+                if not self.file or x != ("path", [self.file]):
+                    raise Unsupported("a file argument that is not this function's file")
+                ts.append(mangle(self.file))
+                file_arg = True
+                continue
             if k < len(cparams) and is_sink(norm_type(cparams[k][1], key[0])):
                 x = a
                 while x[0] in ("ref", "paren"):
@@ -922,6 +968,10 @@ class Tr:
         ret = norm_type(rty, key[0]) if rty else "()"
         if ret.startswith("Result<"):
             ret = generic_arg(ret, "Result")
+        if file_arg:
+            t = self.fresh()
+            call = "(" + lean_name(*key) + "".join(" " + x for x in ts) + ")"
+            return Val(st + [("letm", t, call), ("assign", mangle(self.file), f"{t}.1")], f"(pure {t}.2)", "mon", ret)
         if sink_action:
             t = self.fresh()
             call = "(" + lean_name(*key) + "".join(" " + x for x in ts) + ")"
@@ -948,6 +998,14 @@ class Tr:
             if v.kind != "mon" or not (v.ty or "").startswith("Option<"):
                 raise Unsupported("transpose of something that is not Option<Result<..>> here")
             return v
+        if self.file and recv_e == ("path", [self.file]):
+            f = mangle(self.file)
+            if name == "len" and not args:
+                return Val([], f"(pure {f}.length)", "mon", "u64")
+            if name == "set_len" and len(args) == 1:
+                sx, tx, _ = self.atom_of(args[0])
+                return Val(sx + [("assign", f, f"(Rs.setLen {f} {tx})")], "()", "mon_unit")
+            raise Unsupported(f"method .{name}() on the file")
         if name == "to_le_bytes":
             v = self.tr(recv_e)
             if v.ty in ("u64", "Timestamp"):
@@ -1258,6 +1316,8 @@ class Tr:
                 t = f"({self.sink_term()}, {t})"
             return s + [("return", t)]
         if k == "break":
+            if len(e) > 1 and (not self.labels or self.labels[-1] != e[1]):
+                raise Unsupported("break to a label that is not the innermost labeled block")
             return [("break",)]
         if k == "continue":
             return [("continue",)]
@@ -1303,7 +1363,15 @@ class Tr:
             elif k == "assign":
                 out += self.assign_stmt(st)
             elif k == "for":
+                self.labels.append(None)
                 out += self.for_stmt(st)
+                self.labels.pop()
+            elif k == "labeled":
+                # `'l: { .. break 'l; .. }`: a block that can be left early = a loop that runs once
+                self.labels.append(st[1])
+                body = self.seq(st[2], "unit")
+                self.labels.pop()
+                out += [("for", "_", "[()]", body)]
             else:
                 raise Unsupported(f"statement {k}")
         tail = block[2]
@@ -1612,6 +1680,9 @@ def translate_one(w, generated, impl, fn, extra):
             continue
         elif is_sink(norm_type(p[1], impl)):
             pre.append(("letmutp", mangle(p[0][1]), "([] : Bytes)"))
+        elif is_file(norm_type(p[1], impl)):
+            sig.append(f"({mangle(p[0][1])} : Bytes)")
+            pre.append(("letmutp", mangle(p[0][1]), mangle(p[0][1])))
         else:
             sig.append(f"({mangle(p[0][1])} : {lean_type(p[1], impl)})")
             if is_iter(norm_type(p[1], impl)):
@@ -1634,6 +1705,8 @@ def translate_one(w, generated, impl, fn, extra):
             sq = sq[:-1] + [("pure", f"({tr.sink_term()}, {last[1]})")]
         elif last[0] == "mon":
             sq = sq[:-1] + [("letm", "ret_", last[1]), ("pure", f"({tr.sink_term()}, ret_)")]
+        elif last[0] == "code":
+            sq = sq[:-1] + [("letc", "ret_", last[1]), ("pure", f"({tr.sink_term()}, ret_)")]
         elif last[0] not in ("return", "throw"):
             raise Unsupported("shape of the function's last statement")
     sq = pre + sq
